@@ -141,33 +141,8 @@ macro_rules! c19_g_shared {
 }
 c19_g_shared!(c19_q_g_shared, 40, [((0, 0), (5, 3), (1, 5), (4, -2)), ((-2, 4), (3, -1), (-3, -2), (4, 4))]);
 
-/// thin polyline == union of its segment lines, joints emitted once (symbolic vertices)
-#[cfg(feature = "thorough")]
-#[cfg_attr(kani, kani::proof, kani::unwind(14))]
-pub fn c19_t_polyline_sym3() {
-    let v = [point(2) + Point::new(2, 2), point(2) + Point::new(2, 2), point(2) + Point::new(2, 2)];
-    let n = upto(3) as usize;
-    let q = point(3) + Point::new(2, 2);
-    note!("vertices", v); note!("n", n); note!("q", q);
-    let mut got = 0u32;
-    for p in Polyline::new(&v[..n]).points() { if p == q { got += 1; } }
-    // reference: segment lines, the first point of every following segment skipped
-    let mut want = 0u32;
-    let mut i = 0;
-    while i + 1 < n {
-        let mut first = true;
-        for p in Line::new(v[i], v[i + 1]).points() {
-            if !(first && i > 0) && p == q { want += 1; }
-            first = false;
-        }
-        i += 1;
-    }
-    note!("count_at_q", got); note!("expected", want);
-    check!(got == want, "C19.polyline_union");
-    reach!(n == 3 && got == 2, "reach.revisited");
-    reach!(n == 3 && v[1] == v[2] && v[0] != v[1], "reach.repeated_vertex");
-}
-
+// (thin polyline with three SYMBOLIC vertices in [0,3]^2: no verdict in 2700 s; replaced by the generated
+// lists below, which contain every three-vertex polyline with steps in [-2,2]^2)
 /// listed longer polylines with repeated vertices and reversals
 macro_rules! c19_g_poly {
     ($name:ident, $unw:expr, [$([$(($x:expr, $y:expr)),*]),+ $(,)?]) => {
@@ -201,6 +176,7 @@ macro_rules! c19_g_poly {
         }
     };
 }
+include!("generated/c19_polylines.rs");
 c19_g_poly!(c19_q_g_polylines, 40, [[], [(1, 1)], [(0, 0), (4, 2), (1, 5), (6, 6)], [(0, 0), (3, 0), (3, 0), (5, 2)], [(0, 0), (4, 1), (0, 0)], [(2, 2), (2, 2)]]);
 
 #[cfg(embedded_graphics_verif)]
@@ -303,8 +279,7 @@ pub mod kernels {
         check!(r.contains(&q.x) == t.contains(q), "C05.row_exact");
         reach!(r.contains(&q.x), "reach.hit");
     }
-    #[cfg(feature = "thorough")]
-    c19_row!(c05_c19_t_k_tri_row_b3, 3, 11);
+    // (the same kernel with 3-bit vertices gave no verdict in 2700 s)
 }
 
 /// Reachability twin.
